@@ -26,7 +26,7 @@ func runC20(c *Ctx) {
 
 type codecMsg struct {
 	typ, vt, pb, desc string
-	floor            int
+	floor             int
 }
 
 var codecMsgs = []codecMsg{
@@ -410,7 +410,7 @@ func r20_4(c *Ctx, rule string) {
 		if !ok || (bo.Op != token.EQL && bo.Op != token.NEQ) {
 			return
 		}
-		if k, isK := eng.ConstInt(bo.Y); isK && k == 0 && rcall != nil && bo.X == rcall.Value() {
+		if k, isK := eng.ConstInt(bo.Y); isK && k == 0 && rcall != nil && eng.SameValue(bo.X, rcall.Value()) {
 			key := x.KeyAtEntry(bo)
 			if bo.Op == token.NEQ {
 				key = "!" + key
